@@ -100,7 +100,11 @@ func VerifC11_CallStep() {
 	verifReach("C11/step/end")
 }
 
+// what the step handler of verifSignalStep returns (nil: "ok" with conforming data)
+var verifStepBehaviour func() (string, any)
+
 func verifSignalStep(initCount *int, seen *[]*verifStepData, sigCalls *int, smin *int64) CallableStep {
+	verifStepBehaviour = nil
 	return NewCallableStepWithSignals[*verifStepData, map[string]any](
 		"s",
 		verifScopeOf(map[string]*PropertySchema{"n": NewPropertySchema(NewIntSchema(nil, nil, nil), nil, false, nil, nil, nil, nil, nil)}, "In"),
@@ -123,6 +127,9 @@ func verifSignalStep(initCount *int, seen *[]*verifStepData, sigCalls *int, smin
 		},
 		func(ctx context.Context, d *verifStepData, in map[string]any) (string, any) {
 			*seen = append(*seen, d)
+			if verifStepBehaviour != nil {
+				return verifStepBehaviour()
+			}
 			return "ok", map[string]any{}
 		},
 	)
@@ -166,8 +173,24 @@ func VerifC11_StepDataOnce() {
 	s := NewCallableSchema(verifSignalStep(&initCount, &seen, &sigCalls, nil))
 	order := nondetChoice("order", 4)
 	ctx := context.Background()
+	// how the step ends: declared output, undeclared output id, non-conforming data, or its input is rejected
+	// (in which case the step handler never runs but a run's signals still share one step data)
+	ending := nondetChoice("ending", 4)
+	switch ending {
+	case 1:
+		verifStepBehaviour = func() (string, any) { return "undeclared", map[string]any{} }
+	case 2:
+		verifStepBehaviour = func() (string, any) { return "ok", map[string]any{"zz": int64(1)} }
+	}
 	sig := func(run string) { _ = s.CallSignal(ctx, run, "s", "sig", map[string]any{"v": int64(1)}) }
-	stp := func(run string) { _, _, _ = s.CallStep(ctx, run, "s", map[string]any{}) }
+	stp := func(run string) {
+		in := map[string]any{}
+		if ending == 3 {
+			in["n"] = "not a number"
+		}
+		_, _, err := s.CallStep(ctx, run, "s", in)
+		verifAssert("C11/stepdata/step-result-as-ending", (err == nil) == (ending == 0))
+	}
 	runs := 1
 	switch order {
 	case 0:
@@ -186,6 +209,8 @@ func VerifC11_StepDataOnce() {
 	case 3:
 		stp("r1")
 		stp("r2")
+		sig("r1")
+		sig("r2")
 		sig("r1")
 		runs = 2
 	}
